@@ -208,8 +208,8 @@ pub(super) fn load_styles<R: Read + std::io::Seek>(
     let mut fills = Vec::new();
     let fill_nodes = style_sheet
         .children()
-        .filter(|n| n.has_tag_name("fills"))
-        .collect::<Vec<Node>>()[0];
+        .find(|n| n.has_tag_name("fills"))
+        .ok_or_else(|| XlsxError::Xml("Missing fills in xl/styles.xml".to_string()))?;
     for fill in fill_nodes.children() {
         let pattern_fill = fill
             .children()
